@@ -83,6 +83,12 @@ static void rule_generic(int id, OrcCompiler *p, void *user, OrcInstruction *ins
   g_rule_hits[id]++;
   if ((intptr_t)user != id + 1000) g_rule_user_mismatch++;
   const RuleInfo &r = g_rule[id];
+  if (r.target == 'c') {
+    // the C backend: the application's rule writes source text; a marker is all the oracle needs (which rule
+    // was invoked), the text is never compiled or run here
+    orc_compiler_append_code(p, "    /* orcsim application rule %d */\n", id);
+    return;
+  }
   int src1 = ORC_SRC_ARG(p, insn, 0);
   int dest = ORC_DEST_ARG(p, insn, 0);
   if (r.target == 'a') {
@@ -163,8 +169,8 @@ static std::vector<std::string> reg_gen(const GenArgs &ga) {
       nsets++;
       pl.push_back(l);
     } else if (c < 40 && nsets > 0 && rulesets_total < 12) {
-      static const char *tg[] = {"sse", "sse", "avx", "mmx"};
-      const char *t = tg[r.below(4)];
+      static const char *tg[] = {"sse", "sse", "avx", "mmx", "c"};
+      const char *t = tg[r.below(5)];
       std::string setname = r.chance(1, 6) ? "sys" : strf("%d", (int)r.below(nsets));
       // required flags: CPU feature bits and/or the generic option bits 29..31 (fast-nan, fast-denormal, clean-compile)
       static const char *reqs[] = {"base", "base", "base", "opt1", "opt2", "never", "hi1", "hi2"};
@@ -181,6 +187,7 @@ static std::vector<std::string> reg_gen(const GenArgs &ga) {
         bool first = true;
         for (int k : chosen) { l += strf("%s%d", first ? "" : ",", k); first = false; ruled[{si, k}].push_back(t); }
       }
+      if (r.chance(1, 10)) l += ",nosuchopcodename";   // registering a rule for a name the set does not have is refused, not fatal
       rulesets_total++;
       pl.push_back(l);
     } else if (c < 50) {
@@ -188,8 +195,8 @@ static std::vector<std::string> reg_gen(const GenArgs &ga) {
     } else if (c < 56) {
       pl.push_back(strf("op lookup n=%d", 1 + (int)r.below(4)));
     } else {
-      static const char *tg[] = {"sse", "sse", "avx", "avx", "mmx", "emu"};
-      std::string t = tg[r.below(6)];
+      static const char *tg[] = {"sse", "sse", "avx", "avx", "mmx", "emu", "c"};
+      std::string t = tg[r.below(7)];
       int size = 1 << r.below(3);
       int len = 1 + (int)r.below(4);
       // most programs are aimed at an extension opcode that has a rule somewhere, on a target that has it
@@ -256,6 +263,12 @@ static unsigned req_flags(const std::string &target, const std::string &req) {
     if (req == "opt2") return ORC_TARGET_SSE_SSE4_1 | ORC_TARGET_AVX_AVX2;
     return ORC_TARGET_SSE_SSE5;
   }
+  if (target == "c") {
+    if (req == "base") return 0;
+    if (req == "opt1") return ORC_TARGET_C_C99;
+    if (req == "opt2") return ORC_TARGET_C_C99 | (unsigned)ORC_TARGET_FAST_NAN;
+    return 1u << 20;
+  }
   if (req == "base") return ORC_TARGET_MMX_MMX;
   if (req == "opt1") return ORC_TARGET_MMX_MMXEXT;
   if (req == "opt2") return ORC_TARGET_MMX_SSSE3;
@@ -266,6 +279,7 @@ static unsigned drop_mask(const std::string &target, int drop) {
   unsigned m = 0;
   if (target == "sse") { if (drop & 1) m |= ORC_TARGET_SSE_SSSE3; if (drop & 2) m |= ORC_TARGET_SSE_SSE4_1; m |= ORC_TARGET_SSE_SSE5; }
   else if (target == "avx") { if (drop & 2) m |= ORC_TARGET_SSE_SSE4_1; m |= ORC_TARGET_SSE_SSE5; }
+  else if (target == "c") { if (drop & 1) m |= ORC_TARGET_C_C99; m |= 1u << 20; }
   else { if (drop & 1) m |= ORC_TARGET_MMX_MMXEXT; if (drop & 2) m |= ORC_TARGET_MMX_SSSE3; m |= ORC_TARGET_MMX_3DNOWEXT; }
   return m;
 }
@@ -403,6 +417,12 @@ static void reg_run(const std::vector<std::string> &plan, Child &c) {
         if (next_rule >= MAX_RULE) break;
         std::string oname;
         int kind, size;
+        if (item == "nosuchopcodename") {
+          // not in the set: the registration must be refused without harm, and changes nothing
+          if (next_rule < MAX_RULE) orc_rule_register(rs, "nosuchopcodename", kRule[next_rule], (void *)(intptr_t)(next_rule + 1000));
+          c.count("probe.rule_for_unknown_opcode_refused");
+          continue;
+        }
         if (m.set < 0) {
           oname = item;
           size = oname.back() == 'b' ? 1 : oname.back() == 'w' ? 2 : 4;
@@ -415,7 +435,7 @@ static void reg_run(const std::vector<std::string> &plan, Child &c) {
         }
         if (tname == "mmx" && size > 4) continue;
         int id = next_rule++;
-        g_rule[id] = RuleInfo{kind, size, tname == "sse" ? 's' : tname == "avx" ? 'a' : 'm'};
+        g_rule[id] = RuleInfo{kind, size, tname == "sse" ? 's' : tname == "avx" ? 'a' : tname == "c" ? 'c' : 'm'};
         orc_rule_register(rs, oname.c_str(), kRule[id], (void *)(intptr_t)(id + 1000));
         m.rules[oname] = id;
       }
@@ -491,6 +511,7 @@ static void reg_run(const std::vector<std::string> &plan, Child &c) {
       // model: which rule serves each instruction on this target with these flags
       OrcTarget *t = tname == "emu" ? nullptr : orc_target_get_by_name(tname.c_str());
       unsigned flags = t ? (orc_target_get_default_flags(t) & ~drop_mask(tname, (int)kvi(w, "drop", 0))) : 0;
+      if (tname == "c") flags = (orc_target_get_default_flags(t) | ORC_TARGET_C_C99) & ~drop_mask(tname, (int)kvi(w, "drop", 0));
       if (t) {
         int hi = (int)kvi(w, "hi", 0);
         if (hi & 1) flags |= (unsigned)ORC_TARGET_FAST_DENORMAL;
@@ -564,7 +585,9 @@ static void reg_run(const std::vector<std::string> &plan, Child &c) {
         memcpy(ref.data() + (size_t)i * size, &v, size);
       }
       memset(g_emu_hits, 0, sizeof g_emu_hits);
-      run_with(p, nullptr, meta, RUN_EXEC, act);
+      bool can_call = !(ok && t && !t->executable);   // code for a backend that cannot run here is never called
+      run_with(p, nullptr, meta, can_call ? RUN_EXEC : RUN_EMULATE, act);
+      if (!can_call) { memset(g_emu_hits, 0, sizeof g_emu_hits); c.count("compile.foreign_target_ok"); }
       std::set<int> emu_during_run;
       for (int i = 0; i < next_emu; i++) if (g_emu_hits[i]) emu_during_run.insert(i);
       if (memcmp(act.ptr(d1), ref.data(), ref.size()))
